@@ -63,7 +63,7 @@ The raw logs of the confirmation runs are in `seeded/logs/`.
 property - *after* the strengthening described below the table. At first sight the checks
 reported 32 of 39 (first round), 31 of 40 (second), 28 of 40 (third), 14 of 15
 (fourth: eight properties, sixteen changes, one of which could not be confirmed) and
-FIFTH_ROUND_COUNT (fifth: eight properties; missed at first: `C09-m8`, a back-pointer cache in
+13 of 16 (fifth: eight properties; missed at first: `C09-m8`, a back-pointer cache in
 `inverted()` - the stand-in never inverted an inverse; `C11-m7`, `isinstance` instead of
 type identity in the same-kind test of `update` - needs a `datetime` or `bool` validity,
 a subclass instance the scenarios and the stand-in did not contain; `C18-m8`,
